@@ -73,3 +73,16 @@ Lemma xinv_dead_change lo d1 d2 x : XInv lo d1 x ->
   XInv lo d2 x.
 Proof. intros (HI & HA) Hm. split; [exact HI |]. unfold agent_ok in *.
   destruct (a_mode (ag_agent x)) as [| | cs | u]; auto. destruct u; try contradiction; exact HA. Qed.
+
+(* configurations reachable by any schedule of the live threads up to (not including) a store of a padding header *)
+Inductive xreach (dead : nat -> Prop) (m : mode) (x0 : aconfig) : aconfig -> Prop :=
+| xreach_refl : xreach dead m x0 x0
+| xreach_step x tid x' e : xreach dead m x0 x -> xstep m x tid = Some (x', e) ->
+    (forall i, tid = S i -> ~ dead i) -> in_xwindow x' -> (tid = O -> at_put x = false) -> xreach dead m x0 x'.
+
+Theorem xreach_inv lo dead m x0 x : XInv lo dead x0 -> xreach dead m x0 x -> XInv lo dead x.
+Proof. intros H0 Hr. induction Hr as [| x tid x' e Hr IH Hs Hl Hw Hp]; [exact H0 |].
+  destruct (xstep_inv lo dead m x tid x' e IH Hs Hl Hw) as [OK | (h & L & sw & sf & pd & Em & Et & _)].
+  - intros h L Em Et. specialize (Hp Et). unfold at_put in Hp. rewrite Em in Hp. discriminate.
+  - exact OK.
+  - specialize (Hp Et). unfold at_put in Hp. rewrite Em in Hp. discriminate. Qed.
